@@ -526,6 +526,11 @@ def c08(d, run):
     if _thorough(run):
         exh_stage(d, run, "real cache deviates from Cache.tla (callbacks / value conservation)", "exh", ["store", "cbs", "chan", "costs"],
                   ["Conservation", "NeverTwice", "NothingLost", "ResidentOwned"])
+    # a value can also go missing because a section waits for a lock for ever, or gives up on one: lock level and real threads
+    lock_stage(d, run, LOCK_TTL)
+    free_stage(d, run, "the real cache loses a value at a quiescent point (guards held by other threads across evictions / inserts into the "
+               "same shard; parallel writers switching a key between TTL and no TTL)",
+               [("sync", "thread", 6, 30), ("async", "thread", 4, 24)], kinds="norm,par,norm")
     _need(d, h, ["PNewStore", "PVictim", "PDelPolicy", "PCleanupDone", "RemStore"])
     run.nontrivial = len(getattr(run, "_distinct", ()))
     run.rule = ("one evaluation = one recorded critical section, with the callbacks (kind, value id, cost) fired inside it; "
